@@ -58,3 +58,13 @@ Theorem C20_sequential :
     outcome R m0 env0 causes (run_sched GThread R causes sched m0 env0).
 Proof. exact thread_sequential. Qed.
 Print Assumptions C20_sequential.
+
+(* What a repair has to achieve, and that it suffices: if is_connected + pre_disconnect form one
+   critical section (granularity GLocked: every other access is still its own step), the
+   property holds for ALL schedules, any number of tasks.  (Not a statement about the pinned
+   tree: GLocked is not its granularity.) *)
+Theorem C20_repaired_if_check_and_mark_atomic :
+  forall R m0 env0 causes, quiescent_start m0 -> forall sched,
+    outcome R m0 env0 causes (run_sched GLocked R causes sched m0 env0).
+Proof. exact locked_all. Qed.
+Print Assumptions C20_repaired_if_check_and_mark_atomic.
